@@ -47,6 +47,10 @@ def off_arg(I, st, ty):
     return I.top(st, ty, 'offset', lo=-86_399, hi=86_399)
 
 
+CANON = {'util::format::format_date_part': ['chars', 'days'], 'util::format::format_time_part': ['chars', 'nanoseconds', 'offset'],
+         'util::format::format_part': ['chars', 'days', 'nanoseconds', 'offset']}
+
+
 class Runner:
     def __init__(self, ctx):
         self.ctx = ctx
@@ -103,10 +107,15 @@ class Runner:
                   'util::format::add_ordinal_indicator'):
             I.return_partition[f] = lambda I_, st, v: id(st)
         label = f'{fn}[{pattern}]'
-        self.N.run(fn, label=label, overrides={'chars': lit_arg(pattern), 'nanoseconds': nanos_arg, 'offset': self.off_arg}, variants=('fixed',))
-        outs = []
+        # parameters by their role; a renamed parameter is recognised by its position
+        roles = CANON.get(fn)
         body = I.bodies[fn]
-        names = [n for _l, n in sorted(body.get('names', []))][:body['argc']]
+        if roles is None or len(roles) != body['argc']:
+            roles = [n for _l, n in sorted(body.get('names', []))][:body['argc']]
+        gens = {'chars': lit_arg(pattern), 'nanoseconds': nanos_arg, 'offset': self.off_arg}
+        self.N.run(fn, label=label, overrides={f'{r}@{i + 1}': gens[r] for i, r in enumerate(roles) if r in gens}, variants=('fixed',))
+        outs = []
+        names = roles
         for args, st0, res in self.N.results.get(label, []):
             amap = dict(zip(names, args))
             for st, rv in res:
